@@ -119,6 +119,16 @@ Lemma int16_2_hex h1 h2 a b :
   hexval h1 = Some a -> hexval h2 = Some b -> int16_2 h1 h2 = Some (16 * a + b).
 Proof. intros H1 H2. unfold int16_2. change hexv with hexval. rewrite H1, H2. reflexivity. Qed.
 
+Lemma hexdigit_of_hexval h a : hexval h = Some a -> is_hexdigit h = true.
+Proof. intros H. unfold is_hexdigit. change hexv with hexval. now rewrite H. Qed.
+
+Lemma hex_guard_ok cf h1 h2 a b : hexval h1 = Some a -> hexval h2 = Some b ->
+  hex_fix cf && negb (is_hexdigit h1 && is_hexdigit h2) = false.
+Proof.
+  intros H1 H2. rewrite (hexdigit_of_hexval _ _ H1), (hexdigit_of_hexval _ _ H2).
+  cbn. apply andb_false_r.
+Qed.
+
 Definition hex2_ok (c : Z) : bool :=
   match hex2 c with
   | [h1; h2] =>
@@ -161,6 +171,7 @@ Proof. unfold len. cbn [length]. rewrite app_length. lia. Qed.
 
 Lemma unpack_shape cf body h1 h2 :
   rsp_unpack cf (36 :: body ++ [35; h1; h2]) =
+  if hex_fix cf && negb (is_hexdigit h1 && is_hexdigit h2) then Diag 2 else
   match int16_2 h1 h2 with
   | None => Diag 2
   | Some crc2 =>
@@ -242,7 +253,7 @@ Qed.
 
 Lemma dec_frame cf body h1 h2 :
   esc_fix cf = true -> ~ In 35 body ->
-  forallb is_ascii_b (36 :: body ++ [35; h1; h2]) = true ->
+  dec_fix cf || forallb is_ascii_b (36 :: body ++ [35; h1; h2]) = true ->
   dec_feed cf DIdle (36 :: body ++ [35; h1; h2]) =
   (DIdle, repeat DNone (length body + 3) ++ [DMsg (36 :: body ++ [35; h1; h2])]).
 Proof.
@@ -298,7 +309,7 @@ Proof. cbn [length]. rewrite app_length. cbn. lia. Qed.
 (* a packet-shaped byte string: N silent bytes, then exactly one event decided by rsp_unpack *)
 Lemma rx_packet cf body h1 h2 :
   esc_fix cf = true -> ~ In 35 body ->
-  forallb is_ascii_b (36 :: body ++ [35; h1; h2]) = true ->
+  dec_fix cf || forallb is_ascii_b (36 :: body ++ [35; h1; h2]) = true ->
   rx_feed cf DIdle (36 :: body ++ [35; h1; h2]) =
   (DIdle, repeat RNone (length body + 3) ++ [decodepkt cf (36 :: body ++ [35; h1; h2])]).
 Proof.
@@ -308,29 +319,41 @@ Proof.
   destruct body; reflexivity.
 Qed.
 
-Lemma good_frame_delivered cf w p :
-  esc_fix cf = true -> is_frame_of w p -> forallb is_ascii_b w = true ->
+Lemma good_frame_delivered_gen cf w p :
+  esc_fix cf = true -> is_frame_of w p -> dec_fix cf || forallb is_ascii_b w = true ->
   rx_feed cf DIdle w = (DIdle, repeat RNone (length w - 1) ++ [RDeliver p]).
 Proof.
   intros He (body & h1 & h2 & a & b & -> & Hn & H1 & H2 & Hv & Hu) Ha.
   rewrite (rx_packet cf body h1 h2 He Hn Ha).
   rewrite (length_shape body h1 h2).
-  do 2 f_equal. unfold decodepkt. rewrite unpack_shape, (int16_2_hex _ _ _ _ H1 H2), He.
+  do 2 f_equal. unfold decodepkt.
+  rewrite unpack_shape, (hex_guard_ok cf _ _ _ _ H1 H2), (int16_2_hex _ _ _ _ H1 H2), He.
   unfold checksum in Hv. rewrite Hv, Z.eqb_refl. cbn [negb].
   now rewrite (unesc_loop_ok _ _ Hu).
 Qed.
 
-Lemma bad_checksum_nacked cf w :
-  esc_fix cf = true -> is_bad_checksum_frame w -> forallb is_ascii_b w = true ->
+Lemma good_frame_delivered cf w p :
+  esc_fix cf = true -> is_frame_of w p -> forallb is_ascii_b w = true ->
+  rx_feed cf DIdle w = (DIdle, repeat RNone (length w - 1) ++ [RDeliver p]).
+Proof. intros He Hf Ha. apply good_frame_delivered_gen; auto. rewrite Ha. apply orb_true_r. Qed.
+
+Lemma bad_checksum_nacked_gen cf w :
+  esc_fix cf = true -> is_bad_checksum_frame w -> dec_fix cf || forallb is_ascii_b w = true ->
   rx_feed cf DIdle w = (DIdle, repeat RNone (length w - 1) ++ [RNak]).
 Proof.
   intros He (body & h1 & h2 & a & b & -> & Hn & H1 & H2 & Hv) Ha.
   rewrite (rx_packet cf body h1 h2 He Hn Ha).
   rewrite (length_shape body h1 h2).
-  do 2 f_equal. unfold decodepkt. rewrite unpack_shape, (int16_2_hex _ _ _ _ H1 H2).
+  do 2 f_equal. unfold decodepkt.
+  rewrite unpack_shape, (hex_guard_ok cf _ _ _ _ H1 H2), (int16_2_hex _ _ _ _ H1 H2).
   unfold checksum in Hv.
   destruct (Z.eqb_spec (sumZ body mod 256) (16 * a + b)); [lia|reflexivity].
 Qed.
+
+Lemma bad_checksum_nacked cf w :
+  esc_fix cf = true -> is_bad_checksum_frame w -> forallb is_ascii_b w = true ->
+  rx_feed cf DIdle w = (DIdle, repeat RNone (length w - 1) ++ [RNak]).
+Proof. intros He Hf Ha. apply bad_checksum_nacked_gen; auto. rewrite Ha. apply orb_true_r. Qed.
 
 (* check digits that int(…, 16) rejects: negative acknowledgement as well *)
 Lemma unparsable_checksum_nacked cf body h1 h2 :
@@ -339,8 +362,9 @@ Lemma unparsable_checksum_nacked cf body h1 h2 :
   int16_2 h1 h2 = None ->
   rx_feed cf DIdle (36 :: body ++ [35; h1; h2]) = (DIdle, repeat RNone (length body + 3) ++ [RNak]).
 Proof.
-  intros He Hn Ha Hi. rewrite (rx_packet cf body h1 h2 He Hn Ha).
-  do 2 f_equal. unfold decodepkt. now rewrite unpack_shape, Hi.
+  intros He Hn Ha Hi. rewrite (rx_packet cf body h1 h2 He Hn); [|rewrite Ha; apply orb_true_r].
+  do 2 f_equal. unfold decodepkt. rewrite unpack_shape, Hi.
+  destruct (hex_fix cf && negb (is_hexdigit h1 && is_hexdigit h2)); reflexivity.
 Qed.
 
 (* ------------------------------------------------------------ chunking *)
@@ -371,6 +395,16 @@ Proof.
   destruct (hex2_spec _ Hc) as (h1 & h2 & a & b & E & _ & _ & _ & A1 & A2). rewrite E.
   cbn [forallb]. rewrite forallb_app, (escape_ascii p H). cbn [forallb].
   rewrite A1, A2. reflexivity.
+Qed.
+
+Lemma frame_roundtrip_bytes cf payload chunks :
+  esc_fix cf = true -> dec_fix cf = true ->
+  concat chunks = rsp_pack payload ->
+  feed_chunks cf DIdle chunks =
+  (DIdle, repeat RNone (length (rsp_pack payload) - 1) ++ [RDeliver payload]).
+Proof.
+  intros He Hd Hc. rewrite feed_chunks_concat, Hc, rsp_pack_frame.
+  apply good_frame_delivered_gen; auto using frame_is_frame. now rewrite Hd.
 Qed.
 
 Lemma frame_roundtrip cf payload chunks :
